@@ -168,6 +168,11 @@ class Sweep(Algorithm):
         data['init_env_data'] = self.env.get_initialization_data()
         if not sequential_simulations:
             data['sweeps'] = self.sweeps
+            # state of the mixer, to continue with the same amplitude (or without mixer) on resume
+            if self.mixer is None:
+                data['mixer'] = None
+            else:
+                data['mixer'] = {'sweep_activated': self.mixer.sweep_activated, 'amplitude': self.mixer.amplitude}
             if len(self.ortho_to_envs) > 0:
                 if self.psi.bc == 'finite':
                     data['orthogonal_to'] = [e.ket for e in self.ortho_to_envs]
@@ -679,7 +684,16 @@ class Sweep(Algorithm):
         if isinstance(Mixer_class, str):
             Mixer_class = find_subclass(Mixer, Mixer_class)
         mixer_params = self.options.subconfig('mixer_params')
-        self.mixer = Mixer_class(mixer_params, self.sweeps)
+        if getattr(self, '_resume_mixer_state', False) and 'mixer' in self.resume_data:
+            # resuming an interrupted run: continue with the mixer as it was at the checkpoint
+            self._resume_mixer_state = False
+            mixer_state = self.resume_data['mixer']
+            if mixer_state is None:
+                return  # mixer was already disabled
+            self.mixer = Mixer_class(mixer_params, mixer_state['sweep_activated'])
+            self.mixer.amplitude = mixer_state['amplitude']
+        else:
+            self.mixer = Mixer_class(mixer_params, self.sweeps)
         logger.info(f'activate {Mixer_class.__name__} with initial amplitude {self.mixer.amplitude}')
 
     def mixer_deactivate(self):
@@ -792,6 +806,11 @@ class IterativeSweeps(Sweep):
             Can be downgraded to a warning by setting this option to ``None``.
 
     """
+
+    def resume_run(self):
+        # continue with the mixer in the state saved in the resume data, see :meth:`mixer_activate`
+        self._resume_mixer_state = True
+        return super().resume_run()
 
     def run(self):
         self.shelve = False
